@@ -723,3 +723,107 @@ Example C08_inhabited :
   /\ mr_holds "file:///tmp/a" "file:///tmp/b/c/" "b/c/" = true
   /\ mr_holds "http://u:p@h:81/a/f" "http://u:p@h:81/" "../" = true.
 Proof. exact MR_ok_inhabited. Qed.
+
+(* ================= 8. the STANDARD-side reading of the simple references and of containment ================= *)
+(* The Standard = the transcription Spec/Whatwg.v of the basic URL parser (spec_basic_url_parse shp input (Some sb),
+   shp the host parser); spec_clean input = the Standard's cleaning (C0/space trimmed, tab/LF/CR removed) =
+   ref_text input (C01_eq_cleaning).  related dbg shs b sb (Proofs/C01_EqRef.v) ties a model record to a record of
+   the Standard: well-formed, the ten API strings agree, same serialization; full_base adds the two facts every
+   parse result has (lower-case scheme and '/'-free segments; a special non-file record has a host).  Every pair
+   (model parse result, Standard parse result) of an input outside Known_C01 is a full_base pair, and so is every
+   pair of results of resolving a reference against such a pair (C01_statement_all). *)
+From RU Require Import Model.KnownC01 Spec.Whatwg Spec.WhatwgHostParse Proofs.C09_Host
+  Proofs.C01_EqRun Proofs.C01_EqRef Proofs.C01_EqRelArms Proofs.C01_EqAsm Proofs.C01_EqShape Proofs.C08_Std.
+
+(* 8.1 on the Standard alone: the empty reference, '#f', '?q' *)
+Theorem C08_std_simple : forall shp input sb, spec_valid sb ->
+  (spec_clean input = [] -> has_opaque_path sb = false ->
+     spec_basic_url_parse shp input (Some sb) = BDone (Whatwg.set_fragment sb None))
+  /\ (forall f, spec_clean input = 35 :: f ->
+        spec_basic_url_parse shp input (Some sb) = BDone (Whatwg.set_fragment sb (Some (upe in_fragment_set f))))
+  /\ (forall q, spec_clean input = 63 :: q -> has_opaque_path sb = false ->
+        spec_basic_url_parse shp input (Some sb)
+        = BDone (Whatwg.set_fragment (Whatwg.set_query sb (Some (upe (qset_of sb) (C01_EqRun.before_hash q))))
+                                     (option_map (upe in_fragment_set) (C01_EqRun.after_hash q)))).
+Proof. exact std_simple. Qed.
+Print Assumptions C08_std_simple.
+
+(* 8.2 on the Standard alone: containment.  Base record not opaque, scheme not "file"; reference without scheme and
+   without two leading slash characters ('\' counting only when the base's scheme is special): the Standard never
+   fails and scheme, username, password, host and port of the result are the base's - for every host parser *)
+Theorem C08_std_contain : forall shp input sb, spec_valid sb -> has_opaque_path sb = false ->
+  list_eqb (su_scheme sb) str_file = false -> std_contain_pre sb (spec_clean input) = true ->
+  exists su, spec_basic_url_parse shp input (Some sb) = BDone su /\ spec_same_front sb su.
+Proof. exact std_contain. Qed.
+Check C08_std_contain : forall shp input sb,
+  ((has_opaque_path sb = true -> su_host sb = None /\ su_username sb = [] /\ su_password sb = [] /\ su_port sb = None)
+   /\ (su_scheme sb = str_file -> su_username sb = [] /\ su_password sb = [] /\ su_port sb = None)) ->
+  has_opaque_path sb = false -> list_eqb (su_scheme sb) str_file = false ->
+  (negb (has_scheme_b (spec_clean input))
+   && negb (two_leading_slashes (is_special_scheme (su_scheme sb)) (spec_clean input))) = true ->
+  exists su, spec_basic_url_parse shp input (Some sb) = BDone su
+    /\ su_scheme su = su_scheme sb /\ su_username su = su_username sb /\ su_password su = su_password sb
+    /\ su_host su = su_host sb /\ su_port su = su_port sb.
+Print Assumptions C08_std_contain.
+(* the model's premise contain_pre is the Standard's on a related pair *)
+Theorem C08_contain_pre_std : forall dbg shs b sb input, related dbg shs b sb ->
+  contain_pre b input = std_contain_pre sb (spec_clean input).
+Proof. exact contain_pre_std. Qed.
+Print Assumptions C08_contain_pre_std.
+
+(* 8.3 the crate's join agrees with the Standard's: for a full_base pair (b, sb), sb not opaque and not a file URL,
+   every reference inside contain_pre and outside Known_C01 (of its classes only 2 can occur here: a ".." meeting a
+   drive-letter-shaped segment): the Standard succeeds with a record su that keeps the front of sb, and the model
+   answers Overflow (then su's href is beyond u32::MAX bytes) or a record u' that is related to su (same ten API
+   strings, same serialization), forms a full_base pair with it again, and is contained in the sense of C08_contain.
+   Host functions abstract under C01's one-string hypothesis host_hyp3 *)
+Theorem C08_std_contain_agree : forall dbg hp hpo hd shp shs b sb input,
+  usv_list input -> full_base dbg shs b sb ->
+  has_opaque_path sb = false -> list_eqb (su_scheme sb) str_file = false ->
+  contain_pre b input = true -> known_c01 (Some b) input = 0 ->
+  host_hyp3 hp hpo hd shp shs (Some sb) input ->
+  exists su, spec_basic_url_parse shp input (Some sb) = BDone su /\ spec_same_front sb su
+    /\ ((join dbg hp hpo hd b input = PErr Overflow /\ U32_MAX_P < nlen (get_href shs su))
+        \/ exists u', join dbg hp hpo hd b input = POk u' /\ related dbg shs u' su
+                      /\ full_base dbg shs u' su /\ contained dbg b u').
+Proof. exact std_contain_agree. Qed.
+Print Assumptions C08_std_contain_agree.
+(* ... with the host model against the Standard's host parser: relative to IdnaOK idna only *)
+Theorem C08_std_contain_agree_model : forall dbg idna, IdnaOK idna -> forall b sb input,
+  usv_list input -> full_base dbg spec_host_serializer b sb ->
+  has_opaque_path sb = false -> list_eqb (su_scheme sb) str_file = false ->
+  contain_pre b input = true -> known_c01 (Some b) input = 0 ->
+  exists su, spec_basic_url_parse (spec_host_parser idna) input (Some sb) = BDone su /\ spec_same_front sb su
+    /\ ((parse_url dbg (host_parse idna) host_parse_opaque host_display None (Some b) input = PErr Overflow
+         /\ U32_MAX_P < nlen (get_href spec_host_serializer su))
+        \/ exists u', parse_url dbg (host_parse idna) host_parse_opaque host_display None (Some b) input = POk u'
+                      /\ related dbg spec_host_serializer u' su
+                      /\ full_base dbg spec_host_serializer u' su /\ contained dbg b u').
+Proof. exact std_contain_agree_model. Qed.
+Print Assumptions C08_std_contain_agree_model.
+(* full_base pairs exist: every input outside Known_C01, parsed without a base by the model and by the Standard *)
+Theorem C08_parsed_full_base : forall dbg idna, IdnaOK idna -> forall input u su,
+  usv_list input -> known_c01 None input = 0 ->
+  parse_url dbg (host_parse idna) host_parse_opaque host_display None None input = POk u ->
+  spec_basic_url_parse (spec_host_parser idna) input None = BDone su ->
+  full_base dbg spec_host_serializer u su.
+Proof. exact parsed_full_base. Qed.
+Print Assumptions C08_parsed_full_base.
+(* the empty reference in closed form on both sides ('#f' and '?q': C01_eq_fragment_only / C01_eq_query_only in
+   Properties/C01.v give the related results; their closed forms are C08_frag / C08_query and C08_std_simple) *)
+Theorem C08_std_empty_agree : forall dbg hp hpo hd shp shs b sb input,
+  related dbg shs b sb -> has_opaque_path sb = false -> spec_clean input = [] ->
+  spec_basic_url_parse shp input (Some sb) = BDone (Whatwg.set_fragment sb None)
+  /\ join dbg hp hpo hd b input = POk (without_fragment b)
+  /\ related dbg shs (without_fragment b) (Whatwg.set_fragment sb None).
+Proof. exact std_empty_agree. Qed.
+Print Assumptions C08_std_empty_agree.
+(* non-vacuity: IdnaOK has an instance; against the parse results of http://u:p@example.com:81/a/b/c?q#f and of
+   web+x://h.x/a/b the listed references meet contain_pre, are outside Known_C01, both parsers succeed, the Standard's
+   result keeps scheme and credentials and its href is the model's serialization *)
+Example C08_std_contain_inhabited :
+  IdnaOK ex_idna_clean
+  /\ std_case (B "http://u:p@example.com:81/a/b/c?q#f")
+       [B ""; B "#x y"; B "?z#w"; B "/x/../y"; B "\x"; B "x/./y?q"; B "..\..\z"; B " /	x"] = true
+  /\ std_case (B "web+x://h.x/a/b") [B ""; B "#x"; B "?z"; B "/x"; B "\\h"; B "/\h"; B "../../x"; B "c/d#f"] = true.
+Proof. exact std_contain_inhabited. Qed.
